@@ -3,8 +3,10 @@
 
 package hc
 
+import "github.com/brutella/hc/event"
+
 // Accessors used only by the verification harness (build tag "verif").
-// They add no behaviour: both only read state of a transport.
+// They add no behaviour: they only read state of a transport.
 
 // VerifPort returns the TCP port a started ip transport listens on ("" when not started yet).
 func VerifPort(t Transport) string {
@@ -18,6 +20,14 @@ func VerifPort(t Transport) string {
 func VerifTxtRecords(t Transport) map[string]string {
 	if ip, ok := t.(*ipTransport); ok {
 		return ip.config.txtRecords()
+	}
+	return nil
+}
+
+// VerifEmitter returns the event emitter the ip transport hands to its HTTP endpoints (pairing events go through it).
+func VerifEmitter(t Transport) event.Emitter {
+	if ip, ok := t.(*ipTransport); ok {
+		return ip.emitter
 	}
 	return nil
 }
